@@ -122,12 +122,20 @@ def options_vs_coords(rng):
     sc = rng.choice([1.0, 2.0, 0.5])
     w = [[0, 0, 0, 0, 0, 5.0], [0, 0, 5.0, 3.0, 1.0, 5.0]]
     base = ['-f', '14', '--excitation-pulse=2']
+    # sort keys as the user may write them: the order is numeric (5 before 10, -2 before -1, 9 before 10.5, 1e1 = 10)
+    kr, kt = rng.choice([('1', '2'), ('2', '1'), ('5', '10'), ('10', '5'), ('9', '10.5'), ('20', '100'), ('100', '20'),
+                         ('-2', '-1'), ('-1', '-2'), ('+3', '1e1'), ('1e1', '+3'), ('0.5', '0.25'), ('3', '3')])
     a1 = base + ['-w', '4,%s,.01' % ','.join('%.17g' % x for x in w[0]), '-w', '3,%s,.01' % ','.join('%.17g' % x for x in w[1]),
-                 '--geo-rotate=1,%.17g,%.17g,%.17g' % tuple(rot), '--geo-translate=2,%.17g,%.17g,%.17g' % tuple(tr), '--geo-scale=%.17g' % sc]
+                 '--geo-rotate=%s,%.17g,%.17g,%.17g' % ((kr,) + tuple(rot)), '--geo-translate=%s,%.17g,%.17g,%.17g' % ((kt,) + tuple(tr)),
+                 '--geo-scale=%.17g' % sc]
     R = rotmat(*rot)
+    rot_first = float(kr) <= float(kt)          # equal keys: rotations are collected before translations
     w2 = []
     for x in w:
-        p0 = sc * (R @ np.array(x[:3]) + np.array(tr)); p1 = sc * (R @ np.array(x[3:]) + np.array(tr))
+        if rot_first:
+            p0 = sc * (R @ np.array(x[:3]) + np.array(tr)); p1 = sc * (R @ np.array(x[3:]) + np.array(tr))
+        else:
+            p0 = sc * (R @ (np.array(x[:3]) + np.array(tr))); p1 = sc * (R @ (np.array(x[3:]) + np.array(tr)))
         w2.append(list(p0) + list(p1))
     a2 = base + ['-w', '4,%s,%.17g' % (','.join('%.17g' % x for x in w2[0]), .01 * sc), '-w', '3,%s,%.17g' % (','.join('%.17g' % x for x in w2[1]), .01 * sc)]
     m1 = run_main(a1, want_mininec=True)['m']; m2 = run_main(a2, want_mininec=True)['m']
@@ -136,7 +144,7 @@ def options_vs_coords(rng):
     for g1, g2 in zip(m1.geo, m2.geo):
         for s1, s2 in zip(g1.segments, g2.segments):
             if np.max(np.abs(s1.p2 - s2.p2)) > 1e-9 * (1 + np.max(np.abs(s2.p2))):
-                return 'segment end %r (options) vs %r (coordinates) for rotate=%r translate=%r scale=%r' % (s1.p2, s2.p2, rot, tr, sc)
+                return 'segment end %r (options) vs %r (coordinates) for rotate=%r (key %s) translate=%r (key %s) scale=%r' % (s1.p2, s2.p2, rot, kr, tr, kt, sc)
         if abs(g1.r - g2.r) > 1e-12:
             return 'radius %r vs %r' % (g1.r, g2.r)
     m1.compute(); m2.compute()
